@@ -229,6 +229,11 @@ SHRINK_PER_MECH = 4
 
 def check_string(ctx, fn, s, pre=" ", post="\n", cls=None, shrink=True):
     mechs, info = eval_string(fn, s, pre, post)
+    if ctx.shard == 0 and len(ctx.history) < 3000 and info.get("ans"):
+        # remembered for the history-independence pass (fresh interpreter, reverse order): is_url must be a pure function of its arguments
+        for kw, a in zip(KW, info["ans"]):
+            if isinstance(a, bool):
+                ctx.remember("ural.is_url:is_url", [s], dict(kw), a, cap=3000)
     ctx.ev(32 if info.get("ws") else 16)
     for e in info["excs"]:
         ctx.exc("is_url", e)
